@@ -56,7 +56,7 @@ def run_tlc(module, cfg, tag, workers=None, extra=None, env=None, timeout=1800, 
     PrintT(<<"TAG", json>>) for TAG in keep_tags are reservoir-sampled (at most max_keep per
     tag, seeded) into r["printed"][TAG] as raw strings, everything else is kept as r["out"]."""
     meta = workdir("tlc_" + tag)
-    jopts = "-Xss1g"
+    jopts = "-Xss1g" + (" -Xmx20g" if (workers or MC_WORKERS) > 1 and not simulate else "")
     if depth_first:
         jopts += " -Dtlc2.tool.queue.IStateQueue=StateDeque"
     e = dict(os.environ)
